@@ -97,3 +97,35 @@ Theorem C11_checkpoints_checker_sound_partial rest start cps :
   visits start rest cps = true -> InOrder start rest cps.
 Proof. exact (visits_sound rest start cps). Qed.
 Print Assumptions C11_checkpoints_checker_sound_partial.
+
+(* re-attachment of a connector end to another shape's pin class / a free point / a junction (op Retarget): the state machine
+   follows - the old pin is freed, the candidate pins are exactly the free pins of the NEW anchor's class.  (exclusive_invariant
+   above quantifies over all op sequences, Retarget included.) *)
+Theorem C11_retarget_spec st e s c :
+  Inv st -> step_ok st (Retarget e s c) = true ->
+  let st' := step st (Retarget e s c) in
+  end_of st' e = mkend s c /\ (forall f, f <> e -> end_of st' f = end_of st f) /\
+  length (st_ends st') = length (st_ends st) /\
+  active st' e = None /\ (forall f, f <> e -> active st' f = active st f) /\
+  (forall p, users st' p = remove_nat e (users st p)) /\
+  st_shape st' = st_shape st /\ st_pins st' = st_pins st.
+Proof. exact (retarget_spec st e s c). Qed.
+Print Assumptions C11_retarget_spec.
+
+Theorem C11_reattached_end_candidates st e s c p :
+  Inv st -> step_ok st (Retarget e s c) = true ->
+  (In p (candidates (step st (Retarget e s c)) e) <->
+   (p < length (st_pins st))%nat /\ p_shape (pin_of st p) = s /\ st_shape st s <> None /\ p_class (pin_of st p) = c /\
+   (p_excl (pin_of st p) = false \/ remove_nat e (users st p) = [])).
+Proof. exact (reattached_end_candidates st e s c p). Qed.
+Print Assumptions C11_reattached_end_candidates.
+
+Theorem C11_retarget_detached_no_candidates st e s c :
+  Inv st -> step_ok st (Retarget e s c) = true -> st_shape st s = None ->
+  candidates (step st (Retarget e s c)) e = [] /\ active (step st (Retarget e s c)) e = None.
+Proof. exact (retarget_detached_no_candidates st e s c). Qed.
+Print Assumptions C11_retarget_detached_no_candidates.
+
+Theorem C11_invariant_all_histories ops st : Inv st -> Inv (run st ops).
+Proof. exact (Inv_run ops st). Qed.
+Print Assumptions C11_invariant_all_histories.
